@@ -186,3 +186,26 @@ PLANS["C08"] = dict(
         "scope of _send: see C12; messages appended by nested sends fit the frame's length field",
     ],
 )
+
+PLANS["C11"] = dict(
+    title="Every way a connection can end leaves both sides clean, once, and nobody hanging",
+    contracts=ALL_CONTRACTS, specs=ALL_SPECS, table="module",
+    targets=[CHANNEL + "Channel.close", "rpyc/lib/colls.py::WeakValueDict.clear", STREAM + "SocketStream.close",
+             COLLS + "clear"] +
+            [PROTO + n for n in ("_cleanup", "close", "_handle_close", "__exit__", "__del__", "serve", "serve_all",
+                                 "_async_request", "_send")],
+    lemmas=["frames_app", "all_fit_app"], compositions=[], native_focus=[], design_ref="DESIGN.md section 4, C11",
+    assumptions=COMMON_ASSUMPTIONS + [
+        "single thread (A-SEQ): locks and the receive condition are modelled sequentially",
+        "service hooks (on_disconnect) and stream.close() return normally (A-HOOKS)",
+        "scope: no before_closed hook configured (it fetches the remote root, i.e. serves traffic re-entrantly inside close())",
+        "Channel.poll is an ASSUMED interface contract (select/poll objects are not modelled): EOFError on a closed "
+        "stream, select errors, no bytes consumed",
+        "the handler table call is abstracted by the model handler_run; the close handler's effect is taken from "
+        "Connection._handle_close / _cleanup's own contract",
+        "`nobody hangs` (liveness), two real processes closing at once, and close racing close on two threads are out of "
+        "reach: proved are the end-state clauses on every exit path of close / serve / serve_all for every failure the "
+        "transport's model can produce at every individual poll / read / write",
+        "AsyncResult.wait on a closed connection and poll_all are covered by C15's interface contracts only",
+    ],
+)
